@@ -8,7 +8,7 @@ breaks these proofs at `lake build`. -/
 namespace JediModel.Props.C20
 open JediModel.SysPath
 open JediModel.Gen.C20 (composeOrder traversedReversed initAttrs initParams savePopped
-  serializerVersion envPathStr)
+  serializerVersion envPathStr pathAlwaysAbsolute)
 
 /-- `Project._get_sys_path` as found in the source -/
 def sysPath (c : Cfg) (w : World) (addParent addInit : Bool) : List String :=
@@ -154,13 +154,26 @@ theorem ancestors_inside (proj : Parts) (hasInit : Parts → Bool) (addInit : Bo
   · rw [ha] at h; cases h
   · exact h
 
-/-- every ancestor directory strictly between the project and the script without `__init__.py`
-is added (for a script with an absolute path and a non-empty project path) -/
-theorem ancestors_complete (proj : Parts) (hasInit : Parts → Bool) (addInit : Bool) (script par : Parts)
-    (hproj : 1 ≤ proj.length)
-    (h1 : proj <+: par ∧ proj.length < par.length) (h2 : par <+: script ∧ par.length < script.length)
+/-
+FULL (false on the unchanged code, see `ancestors_missing_for_relative_path_project`):
+  for the project directory D = absolute cwd proj, every directory strictly between D and the
+  script without `__init__.py` is added.
+-/
+
+/-- Every ancestor directory strictly between the project and the script without `__init__.py`
+is added — provided the stored project path is absolute (hypothesis forced: a relative
+`pathlib.Path` argument is stored as it is, and nothing is "inside" it). -/
+theorem ancestors_complete_partial (cwd proj : Parts) (hasInit : Parts → Bool) (addInit : Bool)
+    (script par : Parts) (habs : isAbs proj = true)
+    (h1 : absolute cwd proj <+: par ∧ (absolute cwd proj).length < par.length)
+    (h2 : par <+: script ∧ par.length < script.length)
     (h3 : addInit = true ∨ hasInit par = false) :
     par ∈ traversed proj hasInit addInit script := by
+  simp only [absolute, habs, if_true] at h1
+  have hproj : 1 ≤ proj.length := by
+    cases proj with
+    | nil => simp [isAbs] at habs
+    | cons => simp
   rw [traversed_eq_filter]
   have hpar : 1 ≤ par.length := by omega
   have hin : proj ∈ parentsOf par :=
@@ -168,6 +181,41 @@ theorem ancestors_complete (proj : Parts) (hasInit : Parts → Bool) (addInit : 
   refine List.mem_filter.mpr ⟨(mem_parentsOf_iff_prefix (by split <;> omega)).mpr h2, ?_⟩
   simp only [keeps, hin, decide_true, Bool.true_and, Bool.or_eq_true, Bool.not_eq_true']
   exact h3
+
+/-- the constructor stores an absolute path for every `str` argument, and for every `Path`
+argument once `.absolute()` is applied to those too (the proposed repair) -/
+theorem init_path_absolute (envStr absAlways : Bool) (cwd : Parts) (kw : List (String × PyVal))
+    (p : Project) (hcwd : isAbs cwd = true ∧ cwd ≠ [])
+    (h : init initParams envStr absAlways cwd kw = .ok p)
+    (hkind : absAlways = true ∨ ∃ s, dictGet kw "path" = some (.str s)) :
+    isAbs p.path = true := by
+  have habs : ∀ q, isAbs (absolute cwd q) = true := by
+    intro q
+    unfold absolute
+    split
+    · assumption
+    · exact isAbs_of_prefix (List.prefix_append cwd q) hcwd.1
+  have hp := init_path h
+  unfold initPath at hp
+  split at hp
+  · simp only [pure, Except.pure, Except.ok.injEq] at hp
+    rw [← hp]; exact habs _
+  · next q hq =>
+    rcases hkind with rfl | ⟨s, hs⟩
+    · simp only [if_true, pure, Except.pure, Except.ok.injEq] at hp
+      rw [← hp]; exact habs _
+    · rw [hs] at hq; cases hq
+  · cases hp
+
+/-- Counter-witness to FULL (kernel-checked): a project created with the relative
+`Path('pr')` in `/w`, a script at `/w/pr/pa/s.py`: `/w/pr/pa` is strictly inside the project
+directory `/w/pr`, has no `__init__.py`, and is not added. -/
+theorem ancestors_missing_for_relative_path_project :
+    ∃ p, init initParams false false ["/", "w"] [("path", .path ["pr"])] = .ok p ∧
+      (absolute ["/", "w"] p.path <+: ["/", "w", "pr", "pa"]) ∧
+      (["/", "w", "pr", "pa"] : Parts) ∉
+        traversed p.path (fun _ => false) false ["/", "w", "pr", "pa", "s.py"] := by
+  refine ⟨_, rfl, by decide, by decide⟩
 
 /-- appended outermost first: in the order they enter the path every earlier ancestor is a proper
 prefix of every later one -/
@@ -200,13 +248,13 @@ def SameSettings (cwd : Parts) (p q : Project) : Prop :=
     q.added = p.added ∧ q.smart = p.smart ∧ q.unsafeExt = p.unsafeExt
 
 /-- `Project.save()` then `Project.load()` in the working directory `cwd` -/
-def saveLoad (envStr : Bool) (cwd : Parts) (p : Project) : Except Err Project :=
-  save initAttrs savePopped serializerVersion p >>= load initParams envStr cwd
+def saveLoad (envStr absAlways : Bool) (cwd : Parts) (p : Project) : Except Err Project :=
+  save initAttrs savePopped serializerVersion p >>= load initParams envStr absAlways cwd
 
 /-
 FULL (false on the unchanged code, see `save_raises_on_path_environment` and finding F5):
   ∀ p, parsePath (pathStr p.path) = p.path → (p.envPath is None, a str or a Path) →
-    ∃ q, saveLoad envPathStr cwd p = .ok q ∧ SameSettings cwd p q
+    ∃ q, saveLoad envPathStr pathAlwaysAbsolute cwd p = .ok q ∧ SameSettings cwd p q
 -/
 
 /-- For every project whose `environment_path` is `None` or a `str` (hypothesis forced by F5),
@@ -216,23 +264,23 @@ not `_environment`/`_django` have been set in the meantime.
 theorem save_load_roundtrip_partial (cwd : Parts) (p : Project)
     (hpath : parsePath (pathStr p.path) = p.path)
     (henv : p.envPath = .none ∨ ∃ s, p.envPath = .str s) :
-    ∃ q, saveLoad envPathStr cwd p = .ok q ∧ SameSettings cwd p q := by
+    ∃ q, saveLoad envPathStr pathAlwaysAbsolute cwd p = .ok q ∧ SameSettings cwd p q := by
   obtain ⟨path, env, sysPath, smart, unsafeExt, django, added, environment⟩ := p
   simp only at hpath henv
   rcases henv with rfl | ⟨s, rfl⟩ <;> cases sysPath <;> cases environment <;>
     simp [saveLoad, save, load, init, Project.dict, Project.attr, initAttrs, savePopped,
       serializerVersion, initParams, dictSet, dictGet, lstripUnderscore, jsonRoundTripDict,
-      jsonRoundTrip, optList, SameSettings, hpath, bind, Except.bind, pure, Except.pure, initEnv]
+      jsonRoundTrip, optList, SameSettings, hpath, bind, Except.bind, pure, Except.pure, initEnv, initPath]
 
 /-- After the F5 repair (`__init__` applies `str()` to `environment_path`) every project built by
 the constructor round-trips, also when the caller passed a `Path`. -/
 theorem save_load_roundtrip_of_env_str (cwd : Parts) (kw : List (String × PyVal)) (p : Project)
-    (hinit : init initParams true cwd kw = .ok p)
+    (hinit : init initParams true pathAlwaysAbsolute cwd kw = .ok p)
     (hpath : parsePath (pathStr p.path) = p.path)
     (henv : dictGet kw "environment_path" = Option.none ∨ dictGet kw "environment_path" = some .none ∨
       (∃ s, dictGet kw "environment_path" = some (.str s)) ∨
       (∃ q, dictGet kw "environment_path" = some (.path q))) :
-    ∃ q, saveLoad true cwd p = .ok q ∧ SameSettings cwd p q := by
+    ∃ q, saveLoad true pathAlwaysAbsolute cwd p = .ok q ∧ SameSettings cwd p q := by
   have henv' : p.envPath = .none ∨ ∃ s, p.envPath = .str s := by
     rw [init_envPath hinit]
     rcases henv with h | h | ⟨s, h⟩ | ⟨q, h⟩ <;> simp [h, initEnv]
@@ -241,12 +289,12 @@ theorem save_load_roundtrip_of_env_str (cwd : Parts) (kw : List (String × PyVal
   rcases henv' with rfl | ⟨s, rfl⟩ <;> cases sysPath <;> cases environment <;>
     simp [saveLoad, save, load, init, Project.dict, Project.attr, initAttrs, savePopped,
       serializerVersion, initParams, dictSet, dictGet, lstripUnderscore, jsonRoundTripDict,
-      jsonRoundTrip, optList, SameSettings, hpath, bind, Except.bind, pure, Except.pure, initEnv]
+      jsonRoundTrip, optList, SameSettings, hpath, bind, Except.bind, pure, Except.pure, initEnv, initPath]
 
 /-- Counter-witness to FULL on the code without the repair (kernel-checked): the constructor
 accepts a `Path` as `environment_path`, `save()` then raises `TypeError`. -/
 theorem save_raises_on_path_environment :
-    ∃ p, init initParams false ["/", "w"]
+    ∃ p, init initParams false pathAlwaysAbsolute ["/", "w"]
         [("path", .str "/tmp/p"), ("environment_path", .path ["/", "venv"])] = .ok p ∧
       parsePath (pathStr p.path) = p.path ∧
       save initAttrs savePopped serializerVersion p = .error .typeError := by
@@ -267,7 +315,8 @@ example : sysPath exCfg exWorld true true = ["/p", "/a", "/b", "/c", "/p/pkg", "
 example : exCfg.smart = true := rfl
 example : traversed ["/", "p"] exWorld.hasInit true ["/", "p", "pkg", "sub", "s.py"] =
     [["/", "p", "pkg", "sub"], ["/", "p", "pkg"]] := by decide
-/-- hypotheses of `ancestors_complete` -/
+/-- hypotheses of `ancestors_complete_partial` -/
+example : isAbs (["/", "p"] : Parts) = true := by decide
 example : (["/", "p"] : Parts) <+: ["/", "p", "pkg", "sub"] ∧
     (["/", "p", "pkg", "sub"] : Parts) <+: ["/", "p", "pkg", "sub", "s.py"] := by decide
 
@@ -278,10 +327,10 @@ private def exProject : Project :=
 /-- hypotheses of `save_load_roundtrip_partial` -/
 example : parsePath (pathStr exProject.path) = exProject.path := by decide
 example : exProject.envPath = .none ∨ ∃ s, exProject.envPath = .str s := Or.inr ⟨_, rfl⟩
-example : saveLoad false ["/", "w"] exProject =
+example : saveLoad false false ["/", "w"] exProject =
     .ok { exProject with django := false, environment := false } := by rfl
 /-- hypotheses of `save_load_roundtrip_of_env_str` (a `Path` environment under the repair) -/
-example : ∃ p, init initParams true ["/", "w"]
+example : ∃ p, init initParams true false ["/", "w"]
     [("path", .str "rel/p"), ("environment_path", .path ["/", "venv"])] = .ok p ∧
     p.path = ["/", "w", "rel", "p"] ∧ p.envPath = .str "/venv" ∧
     parsePath (pathStr p.path) = p.path := ⟨_, rfl, by decide, by decide, by decide⟩
